@@ -30,7 +30,8 @@ def concretise(req):
     if req['dep']:
         item_fields.append(dict(name='dep', type='.other.dep.v1.Dep'))
     msgs = [dict(name='Item', fields=item_fields),
-            dict(name='Req', fields=[dict(name='name'), dict(name='page_size', type='int32'), dict(name='page_token')]),
+            dict(name='Req', fields=[dict(name='name')] + ([dict(name='class')] if req.get('extra') == 'reserved' else []) +
+                 [dict(name='page_size', type='int32'), dict(name='page_token'), dict(name='filter', required=True)]),
             dict(name='ListResp', fields=[dict(name='items', type='Item', repeated=True), dict(name='next_page_token')]),
             dict(name='Meta', fields=[dict(name='p', type='int32')])]
     names = []
@@ -61,9 +62,18 @@ def concretise(req):
                 m['out'] = 'google.protobuf.Empty'
                 m['http'] = [dict(verb='delete', uri='/v1/{name=items/*}:m%d' % j)]
             methods.append(m)
+        if req.get('extra') == 'kw':
+            methods.append(dict(name='Import', **{'in': 'Req', 'out': 'Item'},
+                                http=[dict(verb='post', uri='/v1/{name=items/*}:import', body='*')]))
         last['services'].append(dict(name=s['camel'], methods=methods))
     items = [x.split('#')[0] for x in req['items']]
-    return dict(files=files), ','.join(items)
+    api = dict(files=files)
+    if req.get('extra') == 'internal' and req['svcs']:
+        first = f"{pkg}.{req['svcs'][0]['camel']}.{method_names(req)[0]}"
+        api['yaml'] = {'type': 'google.api.Service', 'config_version': 3, 'name': 'lib.example.com',
+                       'publishing': {'library_settings': [{'version': pkg, 'python_settings': {'common': {
+                           'selective_gapic_generation': {'methods': [first], 'generate_omitted_as_internal': True}}}}]}}
+    return api, ','.join(items)
 
 
 def method_names(req):
@@ -144,6 +154,24 @@ def trace_of(req, events):
     return dict(req=req, events=out)
 
 
+def fixup_table(src):
+    """METHOD_TO_PARAMS of the emitted fix-up script, read from its AST (pure projection)."""
+    import ast
+    try:
+        tree = ast.parse(src)
+    except SyntaxError as e:
+        return {'__error__': str(e)}
+    for node in ast.walk(tree):
+        if isinstance(node, (ast.AnnAssign, ast.Assign)):
+            tgt = node.target if isinstance(node, ast.AnnAssign) else node.targets[0]
+            if getattr(tgt, 'id', None) == 'METHOD_TO_PARAMS' and node.value is not None:
+                try:
+                    return {k: list(v) for k, v in ast.literal_eval(node.value).items()}
+                except Exception as e:
+                    return {'__error__': str(e)}
+    return {'__error__': 'METHOD_TO_PARAMS not found'}
+
+
 IMPORT_PROBE = r'''
 import sys, json, importlib, pkgutil, os
 root, mod = sys.argv[1], sys.argv[2]
@@ -194,7 +222,8 @@ def run_case(case, want_import=True, want_sources=False):
     with gen.scratch() as work:
         try:
             gen.read_trace()
-            creq = absapi.build_request(api, param)
+            full = gen.option_string(dict(extra=[param] if param else []), work, api)
+            creq = absapi.build_request(api, full)
             res = gen.generate(creq)
         except Exception as e:
             obs['error'] = f'{type(e).__name__}: {e}'.replace('\n', ' ')[:400]
@@ -219,9 +248,13 @@ def run_case(case, want_import=True, want_sources=False):
         obs['n_py'] = sum(1 for f in res.file if f.name.endswith('.py'))
         obs['jsons'] = {k: v for k, v in jsons.items() if k.endswith('gapic_metadata.json')}
         obs['n_json'] = len(jsons)
+        obs['fixup'] = None
+        for f in res.file:
+            if f.name.startswith('scripts/fixup_') and f.name.endswith('_keywords.py'):
+                obs['fixup'] = fixup_table(f.content)
         if want_sources:
             obs['sources'] = {f.name: f.content for f in res.file if f.name.endswith('.py')}
-        if want_import:
+        if want_import and case.get('_import', True):
             out = gen.materialise(res, os.path.join(work, 'out'))
             for fdp in creq.proto_file:
                 if fdp.name.startswith('other/'):
